@@ -404,6 +404,10 @@ def merge_vals(cond, a, b):
         pb, nb_, vb = _ext(b)
         val = va if vb is None else vb if va is None else merge_vals(cond, va, vb)
         return _np.MaybeInf(smt.simp(z3.If(cond, pa, pb)), val, smt.simp(z3.If(cond, na, nb_)))
+    if isinstance(a, _np.NArr) and isinstance(b, _np.NArr) and type(a) is _np.NArr and type(b) is _np.NArr:
+        # read-only merged view of two arrays (identity is not preserved)
+        n = smt.simp(z3.If(cond, _z(a.n), _z(b.n)))
+        return _np.NArr(n, lambda i, a=a, b=b: merge_vals(cond, a.elem(i), b.elem(i)), a.dtype, "ite")
     if isinstance(a, (Sym, int, float, bool)) and isinstance(b, (Sym, int, float, bool)):
         if _boolish(a) and _boolish(b):
             return wrap(z3.If(cond, zbool(a), zbool(b)))
